@@ -75,7 +75,24 @@ def gen_values(rng, n):
     return v
 
 
+def _gen_polar(rng):
+    """bca beyond the pole of its acceleration term, a*(z0+z_alpha) > 1: one dominant outlier (a ~ 1/6), an estimate below
+    nearly every replicate (z0 ~ 3) and a small alpha; agreement with the documented formula is claimed everywhere"""
+    n = rng.choice([200, 400, 999])
+    big = rng.choice([100.0, 1e4, 37.5])
+    col = [0.0] * n
+    col[rng.randrange(n)] = big
+    if rng.random() < 0.5:  # lower-tail mirror
+        col = [-x for x in col]
+    th = 0.0
+    alpha = rng.choice([1e-3, 2e-3, 1e-4, 5e-4])
+    return {"n": n, "yshape": [], "cols": [col], "th": [th], "method": "bca", "alpha": alpha, "alpha2": min(0.5, alpha * 4),
+            "alpha_array": False, "c": 2.0, "d": 0.0, "perm_seed": rng.randint(0, 10**6), "int_dtype": False, "polar": True}
+
+
 def gen_one(rng, i, tier):
+    if i % 60 == 31:
+        return _gen_polar(rng)
     n = rng.choice([1, 2, 3, 5, 10, 20, 50])
     yshape = rng.choice([[], [], [2], [2, 2]])
     ncomp = int(np.prod(yshape)) if yshape else 1
@@ -262,7 +279,9 @@ def build(inp) -> Case:
     if method == "quantile":
         a1, a2 = alpha, inp["alpha2"]
         k_ = 2 + inp["perm_seed"] % 2
-        for al_ in (np.array([a1, a2, a1 / 2][:k_]), np.array([[a1, a2], [a2 / 2, a1 / 4]])):
+        # also array-form alphas holding exactly ONE level: shape Y + (1,) + (2,) resp. Y + (1, 1) + (2,), not Y + (2,)
+        for al_ in (np.array([a1, a2, a1 / 2][:k_]), np.array([[a1, a2], [a2 / 2, a1 / 4]]),
+                    np.array([a2]) if inp["perm_seed"] % 3 else np.array([[a1]])):
             rv = run(theta, th, al_)
             if rv[0] == "exc":
                 pre.append(Issue("PROPFAIL", "vectorised", f"alpha array of shape {al_.shape}: raised {rv[1]}: {rv[2]}",
